@@ -12,6 +12,36 @@ CLAIMED = {
         "design_ref": "DESIGN.md §2 TRAV, §3 C04",
         "note": "Trusted: rustc front-end as fact source; swc's generated default visitor visits every child; swc parser classification of syntax.",
     },
+    "C06": {
+        "technique": "who-may-call + control-dependence + RAII-style rules over typed HIR; traversal completeness with target Ident (TRAV-IDENT); ADT-graph rule over slots evaluated in another activation (TYPEGRAPH)",
+        "text": "Decides that temporaries are only created by the registering helper and declared by the block driver on the non-refused edge, the counter-reset discipline (reset only on return to the root context; transforms run under with_child_ctx guards), which other-activation AST slots the block traversal reaches (findings D5) and which identifiers the collision check cannot see (findings D9). Does not decide liveness of temporaries in generated code.",
+        "design_ref": "DESIGN.md §3 C06",
+        "note": "Trusted: rustc front-end facts; ECMAScript evaluation rules in the frozen slot table. Known findings D5/D9 are listed in known_findings.json by exact instance key.",
+    },
+    "C07": {
+        "technique": "value-set / provenance analysis of the index argument of every statement-list insertion (VALUESET), sibling agreement of the three sites",
+        "text": "Decides that each insertion index is the count of leading can_precede_directive statements of the list it inserts into; a bounded constant set or an is_use_strict-based index is reported. Necessary and (given swc's predicate) sufficient for 'after the whole directive prologue'.",
+        "design_ref": "DESIGN.md §3 C07",
+        "note": "Trusted: Stmt::can_precede_directive of the compiled swc_ecma_ast version.",
+    },
+    "C12": {
+        "technique": "control-dependence (print/prologue/trailer gates), context-sensitive provenance of results reaching update_status (MODIFIED-HOOK), path rule COUNT-ONCE, JS syntax-tree rule for the hand-back",
+        "text": "Decides that printing, prologue and trailer happen only under status Modified, that Modified is only set from hook-built results, that NotModified carries empty strings, and that main.js hands back the caller's text for the status string the Rust side produces.",
+        "design_ref": "DESIGN.md §3 C12",
+        "note": "Trusted: swc prints the tree it is given; serde field names.",
+    },
+    "C14": {
+        "technique": "traversal completeness of the collector with exact-conjunct exclusion gates, discarded-predicate lint (BOOLDISCARD), constant/operator checks, dedupe-key and ordering rules, inventory of Str constructions",
+        "text": "Decides collector coverage on every path, that the two exclusions apply only under their four documented conjuncts, the window operators/constants and location arithmetic, the dedupe key, the enable gate and that instrumentation cannot add string literals.",
+        "design_ref": "DESIGN.md §3 C14",
+        "note": "Trusted: swc keeps spans on clone; lookup_char_pos conventions.",
+    },
+    "C15": {
+        "technique": "control-dependence of Telemetry::inc on the status parameter (INC-GATE), provenance (MODIFIED-HOOK, TAGS), path rule COUNT-ONCE, sibling agreement of the Telemetry impls, shaping rules",
+        "text": "Decides that a propagation is counted only when this result is Modified and hook-built, exactly once per transform result on every path, with documented tags, and that the three telemetry implementations and the metrics shaping agree with the statement.",
+        "design_ref": "DESIGN.md §3 C15",
+        "note": "Trusted: u32 arithmetic does not overflow for realistic files.",
+    },
 }
 
 PENDING = "check not built yet (implementation in progress; see DESIGN.md)"
